@@ -376,6 +376,19 @@ namespace
             {
                 typedef igris::flat_map<int, int> FM; // (its iterator typedefs only fit the default allocator)
                 typedef igris::flat_set<int, std::less<int>, simalloc::Alloc<int>> FS;
+                // the same set under other orders: descending, and by last decimal digit then value (a projection order)
+                struct ByDigit
+                {
+                    bool operator()(int a, int b) const
+                    {
+                        int da = ((a % 10) + 10) % 10, db = ((b % 10) + 10) % 10;
+                        return da != db ? da < db : a < b;
+                    }
+                };
+                igris::flat_set<int, std::greater<int>, simalloc::Alloc<int>> fsg;
+                std::set<int, std::greater<int>> msg;
+                igris::flat_set<int, ByDigit> fsd;
+                std::set<int, ByDigit> msd;
                 FM fm;
                 FS fs;
                 std::map<int, int> mm;
@@ -446,12 +459,17 @@ namespace
                     case S_INSERT:
                         fs.insert(key);
                         ms.insert(key);
+                        fsg.insert(key);
+                        msg.insert(key);
+                        fsd.insert(key * 7 - 5);
+                        msd.insert(key * 7 - 5);
+                        probe("flat_set_custom_order");
                         break;
                     case S_COUNT:
                         if (fs.count(key) != ms.count(key)) violate("C02/flat_set-count", "count(%d) = %zu, std::set %zu", key, fs.count(key), ms.count(key));
                         break;
                     case S_CLEAR:
-                        if (val % 5 == 0) { fs.clear(); ms.clear(); }
+                        if (val % 5 == 0) { fs.clear(); ms.clear(); fsg.clear(); msg.clear(); fsd.clear(); msd.clear(); }
                         break;
                     }
                     if (fm.size() != mm.size() || fm.empty() != mm.empty()) violate("C02/flat_map-size", "size()=%zu, std::map %zu", fm.size(), mm.size());
@@ -459,7 +477,12 @@ namespace
                     for (auto &kv : mm)
                         if (fm.count(kv.first) != 1 || fm.at(kv.first) != kv.second) violate("C02/flat_map-content", "key %d lost or changed", kv.first);
                     for (int q = -3; q < 13; q++)
+                    {
                         if (fs.count(q) != ms.count(q)) violate("C02/flat_set-content", "count(%d) differs from std::set", q);
+                        if (fsg.count(q) != msg.count(q)) violate("C02/flat_set-content-custom-order", "flat_set<int, std::greater>: count(%d) = %zu, std::set gives %zu", q, fsg.count(q), msg.count(q));
+                        if (fsd.count(q * 7 - 5) != msd.count(q * 7 - 5)) violate("C02/flat_set-content-custom-order", "flat_set with a projection order: count(%d) differs from std::set", q * 7 - 5);
+                    }
+                    if (fsg.size() != msg.size() || fsd.size() != msd.size()) violate("C02/flat_set-size-custom-order", "flat_set with a non-default order: size differs from std::set");
                     tr.ev("op %d key %d -> %zu/%zu", k, key, mm.size(), ms.size());
                     check_deferred();
                 }
